@@ -33,6 +33,7 @@ CLAUSE = {1: "wrong_resource_count", 2: "resource_not_free", 3: "start_end_order
 F_REPLAY = 1701
 F_XREPLAY = 1702
 F_MECHQ = 1703
+F_CONSERVED = 1704
 
 
 def _ids(jobs):
@@ -183,7 +184,7 @@ def shrink(case):
 # ---------------------------------------------------------------------------------------------------------------------
 OP_SUBMIT, OP_FINISH, OP_FAIL, OP_CLOSE, OP_ZOMBIE_END, OP_START = 0, 1, 2, 3, 4, 5
 PH = {0: "pending", 1: "pending", 2: "running", 3: "done", 4: "failed", 5: "cancelled", 6: "zombie", 7: "pending"}
-WAIT_S = 20.0  # upper bound for a thread to show up; reaching it is a finding (job_never_started), never a pass
+WAIT_S = 10.0  # upper bound for a thread to show up; reaching it is a finding (job_never_started), never a pass
 
 
 class Boom(Exception):
@@ -361,6 +362,28 @@ class Stepper:
             ex.shutdown(wait=False, cancel_futures=True)
 
 
+def _compare(c, st, sn):
+    """After an operation: (oracle) when no job is between submitted and started, deque + resources in use = the initial
+    collection; (correspondence) the implementation is in the state of the model after the same operations."""
+    phs = [j[0] for j in sn["jobs"]]
+    if "pending" not in phs and "ending" not in phs:
+        held = [j[1] for j in sn["jobs"] if j[0] == "running"]
+        if not model().call(F_CONSERVED, [st.q0, sn["deque"], held])[0]:
+            return dict(kind="oracle", clause=CLAUSE[6], detail=dict(deque=sn["deque"], in_use=held, q0=st.q0, jobs=sn["jobs"]))
+    states = st.model_states()
+    if not states:
+        return None
+    mq, mjobs, merr, _mm = states[-1]
+    mj = []
+    for j, (ph, r) in enumerate(mjobs):
+        seen = j < len(sn["jobs"]) and sn["jobs"][j][1] is not None
+        mj.append([PH[ph], r if ph in (2, 3, 4, 6) or (ph == 5 and seen) else None])
+    if merr or sn["deque"] != mq or sn["jobs"] != mj:
+        return dict(kind="corr", clause="state_after_op",
+                    detail=dict(op_index=len(st.ops) - 1, op=st.ops[-1], implementation=sn, model=dict(deque=mq, jobs=mj, err=merr)))
+    return None
+
+
 def steps_check(case):
     c = case
     sig = {"backend": c["backend"]}
@@ -388,6 +411,7 @@ def steps_check(case):
             return dict(res, ok=False, clause="invalid_pop_accepted", sig=dict(sig, clause="invalid_pop_accepted"),
                         detail=dict(queue=c["queue"], pop=c["pop"], implementation=what))
         after_close = False
+        bad = None
         for op in c["ops"]:
             kind, arg = op[0], op[1]
             if kind == "submit":
@@ -401,15 +425,17 @@ def steps_check(case):
                 err = st.close()
                 after_close = True
             snaps.append((len(st.ops) - 1, st.snapshot()))
-            if err:
+            bad = err or _compare(c, st, snaps[-1][1])
+            if bad:
                 break
-        if not err:
-            err = st.finish_everything()
+        if not bad:
+            bad = st.finish_everything()
             # the remaining jobs are collected the ordinary way
-            if not err and st.ev._tasks_running:
+            if not bad and st.ev._tasks_running:
                 st.ev.gather("ALL")
                 st.ticks()
             snaps.append((len(st.ops) - 1, st.snapshot()))
+            bad = bad or _compare(c, st, snaps[-1][1])
         meta = []
         for job in st.ev.jobs:
             if "dequed" in job.metadata:
@@ -429,25 +455,16 @@ def steps_check(case):
                    "divides=%s" % (c["queue"] % c["pop"] == 0)] + ["op=" + k for k in kinds] + \
                   ["waves=%d" % min(3, sum(1 for o in c["ops"] if o[0] == "submit"))] + (["pool_start"] if any(o[0] == OP_START for o in ops) else [])
     sig = dict(sig, after_close=after_close)
-    if err:
-        return dict(res, ok=False, clause=err, sig=dict(sig, clause=err), detail=dict(ops=ops, log=log, snapshots=[sn for _i, sn in snaps]))
+    if isinstance(bad, str):
+        return dict(res, ok=False, clause=bad, sig=dict(sig, clause=bad), detail=dict(ops=ops, log=log, snapshots=[sn for _i, sn in snaps]))
     _v, states, acc, idx, clause, fin = model().call(F_XREPLAY, [c["pop"], c["workers"], c["backend"] == "thread", st.q0, ops, log, meta, fq])
     # the property, judged by the extracted oracle on what the run-functions saw
     if not acc:
         cl = CLAUSE.get(clause, str(clause))
         return dict(res, ok=False, clause=cl, sig=dict(sig, clause=cl), detail=dict(rejected_event=idx, event=log[idx], ops=ops, log=log, meta=meta))
-    # correspondence: after every operation the implementation is in the state of the model
-    for i, sn in snaps:
-        if i < 0 or i >= len(states):
-            continue
-        mq, mjobs, merr, _mm = states[i]
-        mj = []
-        for j, (ph, r) in enumerate(mjobs):
-            seen = j < len(sn["jobs"]) and sn["jobs"][j][1] is not None
-            mj.append([PH[ph], r if ph in (2, 3, 4, 6) or (ph == 5 and seen) else None])
-        if merr or sn["deque"] != mq or sn["jobs"] != mj:
-            return dict(res, ok=False, kind="corr", clause="state_after_op", sig=dict(sig, clause="state_after_op"),
-                        detail=dict(op_index=i, op=ops[i], implementation=sn, model=dict(deque=mq, jobs=mj, err=merr), ops=ops, log=log))
+    if bad:
+        # a resource is neither in the deque nor in use (oracle), or the implementation left the states of the model (corr)
+        return dict(res, ok=False, kind=bad["kind"], clause=bad["clause"], sig=dict(sig, clause=bad["clause"]), detail=dict(bad["detail"], ops=ops, log=log))
     if fin != 0:
         cl = CLAUSE.get(fin, str(fin))
         return dict(res, ok=False, clause=cl, sig=dict(sig, clause=cl), detail=dict(ops=ops, log=log, meta=meta, final_deque=fq))
@@ -518,6 +535,6 @@ def streams(tier):
     return [
         Stream("serial_conducted", gen(3000 if th else 400, "serial"), check, shrink, timeout=20),
         Stream("thread_random", gen(400 if th else 60, "thread"), check, shrink, timeout=30),
-        Stream("serial_steps", steps_gen(3000 if th else 300, "serial"), steps_check, steps_shrink, timeout=60),
-        Stream("thread_steps", steps_gen(500 if th else 60, "thread"), steps_check, steps_shrink, timeout=120),
+        Stream("serial_steps", steps_gen(3000 if th else 300, "serial"), steps_check, steps_shrink, timeout=20),
+        Stream("thread_steps", steps_gen(500 if th else 60, "thread"), steps_check, steps_shrink, timeout=60),
     ]
